@@ -25,7 +25,7 @@ RULE = ("Hypothesis-generated classes of 1-5 parameters drawn from Integer, Numb
         "XYCoordinates, Range, Date, CalendarDate, List, Dict, Selector, ListSelector, ClassSelector with every combination of "
         "bounds (none / one-sided / two-sided, incl. 0), inclusivity, length, item type, allowed objects and allow_None; valid "
         "states built by construction (often exactly on an inclusive bound or next to an exclusive one), at class and instance "
-        "level; oracle = (1) Draft7Validator.check_schema on the generated schema + a whitelist of Draft-7 keywords and type "
+        "level, optionally with bounds / objects / length overridden on the instance's own Parameter objects (state valid under the override only), GUI-only hints (softbounds, step), dict-declared and later-extended object lists; oracle = (1) Draft7Validator.check_schema on the generated schema + a whitelist of Draft-7 keywords and type "
         "names, (2) the serialized valid state validates, (3) for Number/Integer each numeric probe (bounds, float neighbours, "
         "bound+-1) is accepted by the schema exactly when the spec predicate accepts it. Non-trivial = the configuration has a "
         "bound, an exclusive side, a length, an item type, an object list or allow_None=True; distinct = case hash.")
@@ -38,15 +38,22 @@ SIZES = {"quick": 1500, "thorough": 10000}
 
 _TYPES = ["Integer", "Number", "String", "Boolean", "Tuple", "NumericTuple", "XYCoordinates", "Range", "Date", "CalendarDate",
           "List", "Dict", "Selector", "ListSelector", "ClassSelector"]
-_KEYWORDS = {"type", "anyOf", "enum", "items", "additionalItems", "minItems", "maxItems", "minimum", "maximum",
-             "exclusiveMinimum", "exclusiveMaximum", "format", "properties", "description", "title"}
+# the complete Draft-7 vocabulary: anything else is not a JSON-schema keyword
+_KEYWORDS = {"$id", "$schema", "$ref", "$comment", "title", "description", "default", "readOnly", "writeOnly", "examples",
+             "multipleOf", "maximum", "exclusiveMaximum", "minimum", "exclusiveMinimum", "maxLength", "minLength", "pattern",
+             "additionalItems", "items", "maxItems", "minItems", "uniqueItems", "contains", "maxProperties", "minProperties",
+             "required", "additionalProperties", "definitions", "properties", "patternProperties", "dependencies",
+             "propertyNames", "const", "enum", "type", "format", "contentMediaType", "contentEncoding", "if", "then", "else",
+             "allOf", "anyOf", "oneOf", "not"}
 _JSON_TYPES = {"integer", "number", "string", "boolean", "array", "object", "null"}
 
 
 @st.composite
 def _case(draw):
     specs_ = draw(st.lists(jw.param_spec(types=_TYPES, for_schema=True), min_size=1, max_size=5))
-    return {"params": [jw.enc_spec(s) for s in specs_], "level": draw(st.sampled_from(["instance", "instance", "class"]))}
+    return {"params": [jw.enc_spec(s) for s in specs_], "level": draw(st.sampled_from(["instance", "instance", "class"])),
+            # instance level only: constraints overridden on the instance's own Parameter objects, state valid under them only
+            "override": draw(st.sampled_from([False, False, True]))}
 
 
 def strategy(tier):
@@ -90,6 +97,24 @@ def execute(case):
     else:
         # a None state of a parameter that does not allow None is reached by *not* assigning (fresh object)
         holder = K(**{n: s[3] for n, s in zip(names, specs_) if s[3] is not None or s[1].get("allow_None")})
+    if case["level"] == "instance" and case.get("override"):
+        for n, (t, cfg, _d, _v) in zip(names, specs_):
+            ip = holder.param[n]
+            if t in ("Integer", "Number") and cfg.get("bounds") is not None and cfg["bounds"][1] is not None:
+                hi = cfg["bounds"][1]
+                ip.bounds = (cfg["bounds"][0], hi + 10)
+                setattr(holder, n, hi + 5)
+                cfg["bounds"] = (cfg["bounds"][0], hi + 10)       # the constraint now in force for this object
+                res.label("instance_level_bounds_override")
+            elif t in ("Selector", "ListSelector") and cfg.get("objects"):
+                new = "only-here" if isinstance(cfg["objects"][0], str) else 4242
+                ip.objects = list(ip.objects) + [new]
+                setattr(holder, n, new if t == "Selector" else [new])
+                res.label("instance_level_objects_override")
+            elif t == "List" and cfg.get("bounds") is not None and cfg["bounds"][1] is not None and cfg.get("item_type") in (None, int):
+                ip.bounds = (0, cfg["bounds"][1] + 2)
+                setattr(holder, n, [1] * (cfg["bounds"][1] + 2))
+                res.label("instance_level_length_override")
     nontrivial = False
     for t, cfg, *_ in specs_:
         res.label("type:" + t)
